@@ -26,7 +26,8 @@ CHECKS = {
               "every deferred call delivered exactly once after the last op. Sampling, not proof."),
         note=("Simulated threads interleave only at op and callback boundaries (traits promises "
               "nothing under data races); handler order is never asserted; where a comparison "
-              "raises only agreement between mechanisms is required."),
+              "raises only agreement between mechanisms is required."
+              " Later passes added: both static spellings (_x_changed/_x_fired) for one trait, add_trait of the same definition over a class trait."),
         technique=TECH + "seeded assignment/registration/delivery histories with handler-fault "
                          "injection under a simulated scheduler, checked against a change model",
         design="4 (C02)"),
@@ -45,7 +46,8 @@ CHECKS = {
               "also ill-formed), change nothing and call none of the name / name_items / "
               "observe recorders. Sampling, not proof."),
         note=("Trusts the hand-written models of Int/CInt/String/List item conversion; a "
-              "container whose owner died stops validating by design and is not checked."),
+              "container whose owner died stops validating by design and is not checked."
+              " Later passes added: Undefined as an element, a falsy owner object, the oracle that an inner list stored by an earlier operation is the observed one."),
         technique=TECH + "seeded op/fault/restart histories on container traits against plain "
                          "Python container models with bounds",
         design="4 (C04)"),
@@ -59,7 +61,8 @@ CHECKS = {
               "every event. Sampling, not proof; the finite (mutator, length<=5, index/slice "
               "class) table is measured for coverage in the evidence."),
         note=("Trusts CPython's list as the reference model and the harness validator; items "
-              "are ints (total order); integer indices only, as the quantifier says."),
+              "are ints (total order); integer indices only, as the quantifier says."
+              " Later passes added: a non-idempotent validator (stored items are never validated again), indices and multipliers that are no integers."),
         technique=TECH + "seeded op/fault histories refined against a built-in list model, "
                          "ddmin-shrunk JSON replay",
         design="4 (C05/C06/C07)"),
@@ -74,7 +77,8 @@ CHECKS = {
               "observers, and on the merged DictChangeEvent of observers. Sampling, not proof."),
         note=("Trusts CPython's dict as the model; lookup-style operations are generated with "
               "already-valid keys only, so the two readings of 'same operations on validated "
-              "keys' coincide."),
+              "keys' coincide."
+              " Later passes added: mappings that are no dicts (UserDict, MappingProxyType, ChainMap) as arguments."),
         technique=TECH + "seeded op/fault histories refined against a built-in dict model, "
                          "ddmin-shrunk JSON replay",
         design="4 (C05/C06/C07)"),
@@ -113,7 +117,8 @@ CHECKS = {
         note=("Level-aliasing cycles (known finding K1) and the assignment of a never-read "
               "trait's own constant default object (K3) are excluded by model-side guards and "
               "reported via stored witnesses; conflicting re-entrant mutation is not generated; "
-              "containers never hold None."),
+              "containers never hold None."
+              " Later passes added: a replaced container mutated through an alias; known findings K3 and K4 (constant default objects of never-read traits) are excluded by guards with stored witnesses."),
         technique=TECH + "seeded graph-mutation histories with probes after every step against a "
                          "from-scratch reachability model; simulated scheduler for ui dispatch",
         design="4 (C08)"),
@@ -136,7 +141,8 @@ CHECKS = {
               "not proof."),
         note=("Poison objects are placed only while no registration exists; level-aliasing "
               "histories (K1) are excluded by the model-side guard; re-entrant (un)registration "
-              "is restricted to registrations whose walk the in-flight change does not re-hook."),
+              "is restricted to registrations whose walk the in-flight change does not re-hook."
+              " Later passes added: del and redefinition (add_trait on an existing name) of observed traits, and a reincarnated owner of a registered bound-method handler (address reuse; a violation found there replays only when the allocator co-operates)."),
         technique=TECH + "seeded registration/graph/fault histories with notifier-population "
                          "snapshots, placement faults on the registration walk, gc/drop events "
                          "and a simulated scheduler",
@@ -158,7 +164,8 @@ CHECKS = {
               "on_trait_change handlers. Sampling, not proof."),
         note=("Reads happen at quiescent points; level-aliasing graphs (K1) are excluded; the "
               "fork uses traits' copy mode 'deep' because plain deepcopy shares Dict items by "
-              "reference (observation O3)."),
+              "reference (observation O3)."
+              " Later passes added: objects constructed with keyword values (class-level handlers read defaults during construction), del of dependency traits."),
         technique=TECH + "seeded dependency-mutation/read/restart histories against a "
                          "recomputation model, getters as counting callback points",
         design="4 (C12)"),
@@ -178,7 +185,8 @@ CHECKS = {
         note=("In-place mutation of a container at a '.' link is not asserted for the legacy "
               "side (its documentation says such an event 'may' be reported); agreement is "
               "boolean; 1- and 2-argument legacy handlers are rejected by traits itself for "
-              "intermediate changes and not used."),
+              "intermediate changes and not used."
+              " Later passes added: del of link traits, replaced containers mutated through an alias."),
         technique=TECH + "seeded mutation histories on trees with probes, legacy listener vs "
                          "observe vs from-scratch reachability model",
         design="4 (C16)"),
@@ -204,7 +212,8 @@ CHECKS = {
               "Sampling, not proof."),
         note=("Snapshots compare by read-equivalence (copying materialises defaults on the "
               "original); copy='ref' links are supposed to share; copy.copy of whole objects is "
-              "shallow by definition and not part of the statement."),
+              "shallow by definition and not part of the statement."
+              " Later passes added: a settable Property stored under another dictionary name, a PrototypedFrom attribute declared before its prototype (known finding K5 excluded by a guard, stored witness)."),
         technique=TECH + "seeded edit/restart/fork/clone histories against a plain-Python model "
                          "with a liveness battery after every restore; crash triage in child "
                          "interpreters",
@@ -233,7 +242,8 @@ CHECKS = {
               "Sampling, not proof."),
         note=("Defaults are compared structurally; the class trait dict caching resolved "
               "wildcard traits for names that were merely looked up is not counted as a change "
-              "of definitions."),
+              "of definitions."
+              " Later passes added: a _<x>_changed_for_<trait> listener and handlers registered on a name that exists only through the class's wildcard definition."),
         technique=TECH + "seeded multi-instance histories (creation order, gc, drop, restart) "
                          "with default factories and handlers as callback points, "
                          "non-interference checked against per-instance models",
@@ -256,7 +266,8 @@ CHECKS = {
               "value, and changes on non-current candidates or after a broken link call none. "
               "Sampling, not proof."),
         note=("The delegate link always holds an object; swapping the delegate itself is not "
-              "required to notify."),
+              "required to notify."
+              " Later passes added: delegates that all compare equal (value objects)."),
         technique=TECH + "seeded two-sided assignment/swap/delete histories with gc, drop and "
                          "restart events against a pointer-following model",
         design="4 (C11)"),
@@ -275,7 +286,8 @@ CHECKS = {
               "constant, write-only and disallowed policies. Sampling, not proof."),
         note=("add_trait is applied to names the instance has not accessed under the previous "
               "rule; pickle restart is left to C14 (what survives a pickle would blur this "
-              "oracle)."),
+              "oracle)."
+              " Later passes added: container instance traits and their <name>_items companions."),
         technique=TECH + "seeded class hierarchies and access histories over several instances "
                          "(resolution order as schedule) against a rule model",
         design="4 (C13)"),
@@ -299,7 +311,8 @@ CHECKS = {
         note=("Both ends of a link have the same trait type; in-place mutation through one-way "
               "links onto an independently changed target is not compared; link graphs with "
               "redundant paths between List traits are excluded by a guard (known finding K2, "
-              "stored witness)."),
+              "stored witness)."
+              " Later passes added: a List whose default comes from a method, handlers closing over their own object, a liveness check after every drop."),
         technique=TECH + "seeded two-sided assignment/mutation/link histories with partner "
                          "gc/drop events (also injected inside handlers) against a link-graph "
                          "propagation model",
@@ -329,7 +342,8 @@ CHECKS = {
         note=("Getters run for notifications (not explicit reads) and an injected TraitError in "
               "a non-last Union alternative ('this alternative rejects') are not injection "
               "points; raw TraitList notifiers are documented as not expected to raise and are "
-              "not change handlers; default materialisation is not an effect."),
+              "not change handlers; default materialisation is not an effect."
+              " Later passes added: histories under the library's default exception handlers, exceptions with non-string arguments."),
         technique=TECH + "twin worlds with exhaustive enumeration of (op, callback site, "
                          "ordinal, exception class) injections per sampled history, "
                          "snapshot/suffix comparison against fault-free and skip twins",
@@ -358,7 +372,8 @@ CHECKS = {
         note=("Trusted base: gcc's AddressSanitizer/UBSan, CPython's reference counts and block "
               "counter. Allocation-failure injection is rejected (DESIGN 4/C18). In-range but "
               "inconsistent state tuples (type confusion by construction) are outside the "
-              "statement's 'calls through the documented API'."),
+              "statement's 'calls through the documented API'."
+              " Later passes added: attribute fuzz on trait definition objects, ill-formed arguments to the multi-argument CTrait setters followed by use, original-value traits with dynamic defaults."),
         technique=TECH + "sanitised re-execution of all simulated workloads plus adversarial "
                          "re-entrancy/gc-storm/corrupted-state worlds; refcount and allocation "
                          "plateau oracles against a holder-count model",
